@@ -374,6 +374,10 @@ class Exec:
                 raise Unsupported('reborrow of ' + type(inner).__name__)
             cont, key = self.lval(fr, p)
             v = cont[key]
+            if v is None and p[0] == 'local':
+                # zero-sized locals (capture-less closures, unit structs) are never assigned in MIR
+                ty = (fr.fn.locals.get(p[1]) or '').strip()
+                if ty.startswith('{closure@'): cont[key] = v = Closure(ty, [], [])
             if isinstance(v, SliceV) and p[0] in ('subslice',): return v
             return Ref(cont, key)
         if k == 'binop': return self.binop(fr, rv[1], self.operand(fr, rv[2]), self.operand(fr, rv[3]), rv, dest)
@@ -742,6 +746,12 @@ class Exec:
                 return _mir_caller(f)
             if len(infos) > 1:
                 return _dynamic_dispatch(self, simple_name(tr) if tr else None, method, callee, infos)
+        if tm and tm[0]:
+            infos0 = prog.method_info(simple_name(tm[0]), simple_name(tm[1]), tm[2])
+            if not infos0:
+                d = _trait_default(prog, simple_name(tm[0]), tm[2])
+                if d is not None and prog.defs.struct_fields(simple_name(tm[1])) is not None or (d is not None and prog.defs.enum_variants(simple_name(tm[1])) and simple_name(tm[1]) not in ('Option', 'Result')):
+                    return _mir_caller(d)
         # free function by path suffix
         if re.fullmatch(r'[\w:]+(::<.*>)?', callee):
             base = re.sub(r'::<.*>$', '', callee)
@@ -856,6 +866,8 @@ def _dynamic_dispatch(ex0, trait, method, callee, infos=None):
             if len(q) == 1: cands = q
         if len(cands) != 1:
             from . import models
+            d = _trait_default(ex.prog, trait, method) if not cands else None
+            if d is not None: return ex.call_mir(d, list(args))
             mdl = models.lookup('<%s as %s>::%s' % (ty, trait, method))
             if mdl: return mdl(ex, args)
             raise Unsupported('no unique impl of %s::%s for %s (%d)' % (trait, method, ty, len(cands)))
@@ -872,6 +884,13 @@ def _dynamic_dispatch(ex0, trait, method, callee, infos=None):
     return call
 
 
+def _trait_default(prog, trait, method):
+    """MirFn of a trait's provided (default) method, printed as `path::Trait::method`"""
+    if not trait: return None
+    cands = [f for f in prog.free.get(method, []) if f.name == '%s::%s' % (trait, method) or f.name.endswith('::%s::%s' % (trait, method))]
+    return cands[0] if len(cands) == 1 else None
+
+
 def _qual_match(tyfull, rel):
     """does type path text (e.g. `ir::Expression`) belong with an impl in file `rel`?"""
     t = tyfull or ''
@@ -885,9 +904,9 @@ def _qual_match(tyfull, rel):
 
 
 def _same_tail(a, b):
-    sa = a.split('::'); sb = b.split('::')
-    n = min(len(sa), len(sb))
-    return sa[-n:] == sb[-n:]
+    sa = [x for x in a.split('::') if not x.startswith('circomspect_')]; sb = [x for x in b.split('::') if not x.startswith('circomspect_')]
+    n = min(len(sa), len(sb), 2)
+    return n > 0 and sa[-n:] == sb[-n:]
 
 
 def _parse_callee(c):
